@@ -339,13 +339,19 @@ func (c *MJSectionComponent) Render(w io.StringWriter) error {
 		}
 
 		vmlOpen := `<v:rect style="width:` + strconv.Itoa(msoTableWidth) + `px;" xmlns:v="urn:schemas-microsoft-com:vml" fill="true" stroke="false"><v:fill origin="` + vOriginX + `, ` + vOriginY + `" position="` + vPosX + `, ` + vPosY + `" src="` + htmlEscape(backgroundUrl) + `"` + colorFragment + ` type="` + vmlType + `"` + sizeFragment + aspectFragment + ` /><v:textbox style="mso-fit-shape-to-text:true" inset="0,0,0,0">`
+		if skipSectionMSOTable {
+			// Inside a wrapper no Outlook comment is open at this point (the wrapper closed it
+			// after its own table cell), so the VML opening needs its own conditional, like the
+			// VML closing below.
+			if _, err := w.WriteString("<!--[if mso | IE]>"); err != nil {
+				return err
+			}
+		}
 		if _, err := w.WriteString(vmlOpen); err != nil {
 			return err
 		}
-		if !skipSectionMSOTable {
-			if _, err := w.WriteString("<![endif]-->"); err != nil {
-				return err
-			}
+		if _, err := w.WriteString("<![endif]-->"); err != nil {
+			return err
 		}
 	} else if !skipSectionMSOTable {
 		if _, err := w.WriteString("<![endif]-->"); err != nil {
